@@ -36,6 +36,8 @@ Honors == [n \in {"cholesky", "root_decomposition", "root_inv_decomposition", "d
 Queries == << <<"to_dense", 0>>,
               <<"cholesky", 0>>, <<"cholesky", 1>>,                           \* arg = upper
               <<"root_decomposition", 0>>, <<"root_decomposition", 1>>, <<"root_decomposition", 2>>,  \* method: None, cholesky, symeig
+              \* method "lanczos" with a budget of 2 < n (max_root_decomposition_size): a rank-2 Krylov root, passed POSITIONALLY
+              <<"root_decomposition", 3>>,
               <<"root_inv_decomposition", 0>>, <<"root_inv_decomposition", 1>>, <<"root_inv_decomposition", 2>>,
               <<"diagonalization", 0>>, <<"diagonalization", 2>>,              \* method: None, symeig
               <<"svd", 0>>, <<"eigh", 0>>, <<"solve", 0>>, <<"logdet", 0>>, <<"inv_quad_logdet", 0>>, <<"diagonal", 0>>,
@@ -44,7 +46,9 @@ Queries == << <<"to_dense", 0>>,
               <<"root_inv_decomposition_vecs", 0>> >>
 \* does an answer computed with argument a answer a query with argument b of the same name correctly?
 \* (any root is a root and any diagonalization is one, whatever the method; a Cholesky factor has an orientation)
-SemOk(name, a, b) == IF name = "cholesky" /\ ~DiagLike THEN a = b ELSE TRUE
+\* (... except a deliberately truncated Lanczos root, which answers only the query that asked for it)
+SemOk(name, a, b) == IF name = "cholesky" /\ ~DiagLike THEN a = b
+                     ELSE IF name = "root_decomposition" /\ a = 3 THEN b = 3 ELSE TRUE
 \* which cache names a query reads / writes (the public method may differ from the cached name)
 CacheName(q) ==
   CASE q[1] = "cholesky" -> "cholesky"
